@@ -69,20 +69,34 @@ pub fn rich_doc(kind: &str, s: &str, km: &KeyMap) -> MetadataWrapper {
             .run(Command::from(vec!["sh".to_string(), "-c".to_string(), format!("true {s}")]))
             .add_expected_material(ArtifactRule::Require("a.out".into()));
         let i2 = Inspection::new("i2").run(Command::from("true"));
-        MetadataWrapper::Layout(
-            LayoutMetadataBuilder::new()
-                .expires(crate::verify::t0())
-                .readme(format!("readme {s}"))
-                .add_key(km.pk("k1").clone())
-                .add_key(km.pk("k2").clone())
-                .add_step(s1)
-                .add_step(s2)
-                .add_inspect(i1)
-                .add_inspect(i2)
-                .build()
-                .unwrap(),
-        )
+        let mut b = LayoutMetadataBuilder::new()
+            .expires(crate::verify::t0())
+            .readme(format!("readme {s}"))
+            .add_key(km.pk("k1").clone())
+            .add_key(km.pk("k2").clone());
+        for k in listed_key_forms() {
+            b = b.add_key(k);
+        }
+        MetadataWrapper::Layout(b.add_step(s1).add_step(s2).add_inspect(i1).add_inspect(i2).build().unwrap())
     }
+}
+
+/// public keys in every construction form of the public API (KeyId.tla's constructors), whatever the
+/// family of the signers: a layout lists them in its key table, which is part of the signed content
+pub fn listed_key_forms() -> Vec<PublicKey> {
+    use in_toto::crypto::SignatureScheme;
+    let ed = crate::keys::load("ed25519", 8).public().clone();
+    let ec = crate::keys::load("ecdsa", 2).public().clone();
+    let rsa = crate::keys::load("rsa2048-256", 1).public().clone();
+    vec![
+        PublicKey::from_ed25519(ed.as_bytes().to_vec()).unwrap(),
+        PublicKey::from_ed25519_with_keyid_hash_algorithms(ed.as_bytes().to_vec(), Some(vec!["sha256".to_string()])).unwrap(),
+        PublicKey::from_ecdsa(ec.as_bytes().to_vec()).unwrap(),
+        PublicKey::from_ecdsa_with_keyid_hash_algorithms(ec.as_bytes().to_vec(), Some(vec!["sha512".to_string()])).unwrap(),
+        ec.clone(),
+        PublicKey::from_spki(&rsa.as_spki().unwrap(), SignatureScheme::RsaSsaPssSha512).unwrap(),
+        rsa.clone(),
+    ]
 }
 
 fn bump_str(v: &mut Value) {
